@@ -27,6 +27,10 @@ KSent == {"sent"}
 KStruct == {"del", "ins", "ren"}
 DirCls == {6, 7}
 KSentCmt == {"sent", "cmt"}
+KMut == {"mut"}
+ModOnly == {"mod"}
+SweepUnits == {"sub", "mod"}
+SweepCons == {"if", "dol", "where", "forall"}
 KLayout == {"brk", "join", "case", "cmt"}
 KLayout1 == {"brk", "join", "case"}
 InsSmall == {1, 2, 3, 7, 11}
